@@ -12,10 +12,14 @@
  *                                 (n_workers = N), Ai = -1 implicit (myth_get_num_workers());
  *                                 after `|` the schedule: whom to run at each decision
  *                                 (a participant that has returned is replaced by the next busy one)
+ *   stress A1 .. AK               the same calls, all participants released at once and NOT serialised
+ *                                 (real parallelism: catches a non-atomic election); events are logged
+ *                                 as `sev ...` in arrival order and not given to the acceptor
  *   fini                          the elected initialiser of this epoch (the main thread) calls myth_fini()
  * stdout:
  *   ev P call <init|init_ex|implicit> N | ev P <fast|slow|cas|wait|waited|really|started|done|ret> V
  *   fev <call|noop|begin|wait|waited|stopped|done|ret> V
+ *   winner W A1 .. AK             after a stress round: the elected participant (-1: none, already initialised)
  *   end nw=<n> really=<total real initialisations> extra=<OS threads beyond the K+1 of the harness> state=<s>
  */
 #define _GNU_SOURCE
@@ -32,7 +36,9 @@
 #define MAXK 16
 static pthread_mutex_t mu = PTHREAD_MUTEX_INITIALIZER;
 static pthread_cond_t cv = PTHREAD_COND_INITIALIZER;
-static int turn = -1;                 /* participant allowed to run; -1 = the controller */
+static int turn = -1;                 /* participant allowed to run; -1 = the controller; -2 = everybody (stress) */
+static volatile int free_mode;
+static volatile int round_winner = -1;
 static int K;
 static __thread int my_pid = -1;
 static volatile int elected = -1;     /* CAS winner of the current epoch = the main thread */
@@ -46,6 +52,7 @@ static void die(const char * m) { fprintf(stderr, "init_conc: %s\n", m); _exit(3
 
 /* hand the token back to the controller and wait for it again */
 static void yield_token(int pid) {
+  if (free_mode) return;
   pthread_mutex_lock(&mu);
   turn = -1; pthread_cond_broadcast(&cv);
   while (turn != pid) pthread_cond_wait(&cv, &mu);
@@ -53,7 +60,7 @@ static void yield_token(int pid) {
 }
 static void wait_token(int pid) {
   pthread_mutex_lock(&mu);
-  while (turn != pid) pthread_cond_wait(&cv, &mu);
+  while (turn != pid && !(turn == -2 && P[pid].busy)) pthread_cond_wait(&cv, &mu);
   pthread_mutex_unlock(&mu);
 }
 
@@ -66,7 +73,7 @@ static void hook(int pt, const void * a, const void * b, long v) {
   int pid = my_pid >= 0 ? my_pid : elected;
   if (pid < 0) return;
   if (pt == MYTH_VP_INIT_REALLY) __sync_fetch_and_add(&n_really, 1);
-  if (pt == MYTH_VP_INIT_CAS && v == 1) elected = pid;
+  if (pt == MYTH_VP_INIT_CAS && v == 1) { elected = pid; round_winner = pid; }
   const char * nm = 0;
   switch (pt) {
     case MYTH_VP_INIT_FAST: nm = "fast"; break;      case MYTH_VP_INIT_SLOW: nm = "slow"; break;
@@ -79,7 +86,7 @@ static void hook(int pt, const void * a, const void * b, long v) {
   }
   if (!nm) return;
   if (in_fini || pt >= MYTH_VP_FINI_NOOP) printf("fev %s %ld\n", nm, v);
-  else printf("ev %d %s %ld\n", pid, nm, v);
+  else printf("%s %d %s %ld\n", free_mode ? "sev" : "ev", pid, nm, v);
   fflush(stdout);
   /* `really' and `started' lie inside the initialiser's private section (no access of the state
      word in between): no decision point, the log line is enough */
@@ -95,7 +102,7 @@ static void * body(void * a) {
     int cmd = P[pid].cmd, arg = P[pid].arg;
     if (cmd == C_QUIT) { P[pid].busy = 0; pthread_mutex_lock(&mu); turn = -1; pthread_cond_broadcast(&cv); pthread_mutex_unlock(&mu); return 0; }
     if (cmd == C_CALL) {
-      printf("ev %d call %s %d\n", pid, arg == 0 ? "init" : arg > 0 ? "init_ex" : "implicit", arg > 0 ? arg : 0); fflush(stdout);
+      printf("%s %d call %s %d\n", free_mode ? "sev" : "ev", pid, arg == 0 ? "init" : arg > 0 ? "init_ex" : "implicit", arg > 0 ? arg : 0); fflush(stdout);
       yield_token(pid);
       if (arg == 0) myth_init();
       else if (arg > 0) {
@@ -103,7 +110,8 @@ static void * body(void * a) {
         myth_globalattr_set_n_workers(&at, (size_t)arg);
         myth_init_ex(&at);
       } else (void)myth_get_num_workers();
-      printf("ev %d ret 0\n", pid); fflush(stdout);
+      /* the state the caller finds when its call returns (2 = initialized) */
+      printf("%s %d ret %d\n", free_mode ? "sev" : "ev", pid, free_mode ? g_myth_init_state : 0); fflush(stdout);
     } else if (cmd == C_FINI) {
       in_fini = 1;
       printf("fev call 0\n"); fflush(stdout);
@@ -111,9 +119,12 @@ static void * body(void * a) {
       printf("fev ret 0\n"); fflush(stdout);
       in_fini = 0; elected = -1;
     }
+    /* the token goes back to the controller (stress: when the last participant is done) */
+    pthread_mutex_lock(&mu);
     P[pid].cmd = C_NONE; P[pid].busy = 0;
-    /* the token goes back to the controller at the top of the loop */
-    pthread_mutex_lock(&mu); turn = -1; pthread_cond_broadcast(&cv); pthread_mutex_unlock(&mu);
+    if (free_mode) { int nb = 0; for (int i = 0; i < K; i++) nb += P[i].busy; if (!nb) turn = -1; }
+    else turn = -1;
+    pthread_cond_broadcast(&cv); pthread_mutex_unlock(&mu);
   }
 }
 
@@ -172,6 +183,19 @@ int main(void) {
         while (!P[p].busy) p = (p + 1) % K;
         run(p);
       }
+      print_end();
+    } else if (!strcmp(tok, "stress")) {
+      int i;
+      round_winner = -1;
+      pthread_mutex_lock(&mu);
+      for (i = 0; i < K; i++) { tok = strtok_r(0, " \n", &save); if (!tok) die("stress: too few"); P[i].arg = atoi(tok); P[i].cmd = C_CALL; P[i].busy = 1; }
+      free_mode = 1;
+      pthread_mutex_unlock(&mu);
+      run(-2);
+      free_mode = 0;
+      printf("winner %d", round_winner);
+      for (i = 0; i < K; i++) printf(" %d", P[i].arg);
+      printf("\n");
       print_end();
     } else if (!strcmp(tok, "fini")) {
       int w = elected;
